@@ -19,7 +19,7 @@ def cause(c):
     a = c["attrs"]
     if a["nsig"] != 1:
         return "not-exactly-one-signature"
-    if a["keyhdr"] == "jwk-private":
+    if a["keyhdr"] in ("jwk-private", "jwk-private-own"):
         return "embedded-private-key"
     if a["enc"] == "extra-seg":
         return "trailing-segments-ignored"
@@ -124,10 +124,7 @@ def run(prop, tier, seed, replay=None):
         missing = [a for a in ACTIONS if not m.coverage.get(a)]
         if missing:
             raise Inconclusive("vacuity: actions never fired in the model: %s" % missing)
-    gp = vlib.tlc("Jose", "Jose.genp.cfg", workers=4, timeout=600)
-    if not gp.ok:
-        raise Inconclusive("TLC Jose.genp: %s %s" % (gp.violation, gp.error))
-    presc = {(c["consumer"], c["fam"], c["variant"]): c["expect"] for c in gp.printed}
+    presc = {(c["consumer"], c["fam"], c["variant"]): c["expect"] for c in m.printed}
     for c in g.printed:
         c["presc"] = presc[(c["consumer"], c["fam"], c["variant"])]
     table = sorted(g.printed, key=lambda c: (c["consumer"], c["fam"], c["variant"]))
